@@ -28,6 +28,7 @@ Definition table_dev (tab : dev_table) : devfun :=
           else if policy =? 2 then (if n =? 1 then Some (time + period) else None)
           else if policy =? 3 then (if h2 mod 5 <? 3 then Some (time + period * (1 + h2 mod 3)) else None)
           else if policy =? 4 then (if n mod 2 =? 1 then Some (time + 3 * period) else Some (time + period))
+          else if policy =? 5 then (if n mod 2 =? 1 then Some time else Some (time + period))   (* re-evaluation at once *)
           else None in
         (outs, call_at)
     end.
